@@ -98,6 +98,41 @@ CHECKS = {
   design_ref="DESIGN.md §4 C07",
   technique="model-based victim states + adversarial request sequences (proptest) + snapshot-diff oracle per call",
   note=TRUST + "; authorised = finalize_tx carrying the cooperating wallet's own honest participant entry (judged by C02); r_addr/dest never set (outbound network)"),
+ "C11": dict(
+  engine="world",
+  category="exploration",
+  text="Proof-carrying sends on a real chain; (a) the reply's proof is stripped / re-signed by other keys / signed by the recipient's real key over other amounts, excesses or sender addresses / bit-flipped, and finalize must refuse unless the mutated proof is still the requested recipient's valid signature over (amount, final excess, sender address), decided independently with ed25519-dalek; (b) after mining, every field of the exported proof is altered and verify_payment_proof must refuse, from sender, recipient and third-party wallets with the right (sender_mine, recipient_mine) flags; (c) verification fails while the kernel is not on chain. ~6.5k judgements per quick run.",
+  design_ref="DESIGN.md §4 C11",
+  technique="model-based scenarios (proptest) + mutation of reply and exported proof + independent ed25519 oracle",
+  note=TRUST + "; ed25519-dalek as reference verifier; mutations whose validity cannot be decided independently are not generated"),
+ "C12": dict(
+  engine="world+pbt+fsfault",
+  category="exploration",
+  text="(a) needle search (seed, phrase windows, every live context's secret key and nonce; raw / hex / base64 / JSON integer array) over every wallet file and every emitted message after every op of generated histories; (b) seed-file round trip with an independent PBKDF2-HMAC-SHA512 + ChaCha20-Poly1305 routine on ring, wrong-password refusal, change_password; (c) change_password / recover_from_mnemonic run in a child process under an LD_PRELOAD shim that kills it (or injects EIO) before/after every file operation on wallet.seed* and after short writes of every length - exhaustive per case - then every seed file is tried with old and new password; (d) public nonce / excess freshness across all slates of a wallet through the default API objects.",
+  design_ref="DESIGN.md §4 C12",
+  technique="proptest histories + needle search; independent decrypt; syscall-level kill-point enumeration; distinctness invariant",
+  note=TRUST + "; ring as reference crypto; kill points are file-operation boundaries + short writes (no power-loss reordering); the known clear-text copy of context secrets in the DB is excluded by construction and counted"),
+ "C15": dict(
+  engine="world+fault",
+  category="exploration",
+  text="Histories of output-creating operations (receive, change, coinbase fresh and re-requested by key id, invoice, build_output, self-send) over 2 wallets x 2 accounts with restarts, crashes injected at persistent-effect boundaries on the live directory (fault wrapper), and restores from seed followed by further creation; the harness keeps, per wallet directory, a map key path -> outputs seen (snapshots, contexts, API results, slates rewound with an independent keychain) and flags any path used for two outputs except the stated coinbase-candidate exception; after a restore the next path must lie beyond every path on chain.",
+  design_ref="DESIGN.md §4 C15",
+  technique="model-based stateful proptest + crash injection + history invariant (path -> output map is a function)",
+  note=TRUST + "; proof::rewind as ground truth for paths on chain; two processes on one wallet directory are not modelled"),
+ "C17": dict(
+  engine="world",
+  category="exploration",
+  text="Boundary grid: cutoffs {0,1,h-1,h,h+1,h+k,u64::MAX} x placements {receive_tx, process_invoice_tx, sender finalize_tx, payee finalize_tx, own pending entry + refresh at tips c-1,c,c+1} x 0-3 other pending transactions, each cutoff on its own copy of a prepared world whose active account last refreshed at h (chain tip possibly higher). Refused with unchanged raw DB iff c != 0 and h >= c, otherwise the step must succeed; refresh at tip >= c cancels exactly the expired unconfirmed entries and releases their inputs.",
+  design_ref="DESIGN.md §4 C17",
+  technique="grid enumeration inside proptest scenarios + two-sided boundary oracle + snapshot diff",
+  note=TRUST + "; h is the active account's last successful refresh height (statement: 'has observed')"),
+ "C18": dict(
+  engine="world",
+  category="exploration",
+  text="Real reorganisations on the real chain: a confirmed incoming payment, then a heavier fork mined on an ancestor 1..6 blocks below the tip (fork point above, at and below the payment block) with or without the transaction, 0-3 flip-flops, scans / refreshes at generated points, optional re-mining. After every scan: entry TxReverted+unconfirmed iff the kernel is absent, amount_reverted exact, no live record for the payment output or any orphaned coinbase outside the chain's unspent set, exact figures; estimate and real send probes must only select chain UTXOs; one ordinary refresh re-confirms after re-mining.",
+  design_ref="DESIGN.md §4 C18",
+  technique="model-based fork scenarios (proptest) + chain-derived ground-truth oracle",
+  note=TRUST + "; only owner.scan is required to report the revert (statement); what a plain refresh does after a reorg is recorded, not judged"),
 }
 
 hooks_commits = subprocess.run(["git", "-C", "/repo", "log", "--format=%h %s"], stdout=subprocess.PIPE, text=True).stdout.splitlines()
@@ -131,7 +166,7 @@ m = {
  },
  "engines": [
   {"name": "pbt", "path": "harness/src/rt.rs + harness/src/props", "serves_properties": [p for p in ids if p in CHECKS and CHECKS[p]["engine"].startswith("pbt")], "kind_free_text": "proptest strategies driven per case by TestRunner with a seed derived from (VERIF_SEED, property, part, tier, index); shrinking yields the replay file"},
-  {"name": "world", "path": "harness/src/world.rs + node.rs + snap.rs", "serves_properties": [p for p in ids if p in CHECKS and CHECKS[p]["engine"] in ("world","fault")], "kind_free_text": "stateful model-based: real grin chain + real LMDB wallets + thread-free node client, op sequences interpreted against the real API with invariants after every step"},
+  {"name": "world", "path": "harness/src/world.rs + node.rs + snap.rs", "serves_properties": [p for p in ids if p in CHECKS and CHECKS[p]["engine"] in ("world","fault","world+fault","world+pbt+fsfault")], "kind_free_text": "stateful model-based: real grin chain + real LMDB wallets + thread-free node client, op sequences interpreted against the real API with invariants after every step"},
  ],
  "checks": checks,
  "not_applicable": [{"property_id": p, "reason": NA.get(p, "check not built yet in this session (planned in DESIGN.md §4); not claimed")} for p in ids if p not in CHECKS],
